@@ -254,87 +254,121 @@ func keySetupDuringHandshake(res *core.Result, r *rand.Rand, idA, idB *m.Address
 		}
 		for _, dir := range []wire.Dir{wire.AtoB, wire.BtoA} {
 			for idx := 0; idx < 3; idx++ {
-				for _, initiatorIsA := range []bool{true, false} {
-					desc := fmt.Sprintf("config %s: end-to-end key setup (initiated by A=%v) completes before handshake message %d %s is delivered", c.name, initiatorIsA, idx, dir)
-					a, b := wire.NewRouter(idA, c.a), wire.NewRouter(idB, c.b)
-					fired := false
-					var evErr error
-					plan := func(d wire.Dir, i int, msg []byte) [][]byte {
-						if d == dir && i == idx && !fired {
-							fired = true
-							ini, rsp, iniFar, rspFar := a, b, idB, idA
-							if !initiatorIsA {
-								ini, rsp, iniFar, rspFar = b, a, idA, idB
+				for _, half := range []string{"request-served", "response-installed"} {
+					for _, initiatorIsA := range []bool{true, false} {
+						// The hello has two halves: its request is served in place by the responder, its response makes the
+						// initiator install a detached session. One half falls into the handshake (at the chosen message), the
+						// other one lies outside it - the request was served before the handshake began, or the response
+						// arrives after it ended - so that each half is judged on its own.
+						desc := fmt.Sprintf("config %s: hello initiated by A=%v, its %s half happens before handshake message %d %s is delivered", c.name, initiatorIsA, half, idx, dir)
+						a, b := wire.NewRouter(idA, c.a), wire.NewRouter(idB, c.b)
+						_ = a.Inst.StateV.AddRouter(&idB.PublicAddress)
+						_ = b.Inst.StateV.AddRouter(&idA.PublicAddress)
+						ini, rsp, iniFar, rspFar := a, b, idB, idA
+						if !initiatorIsA {
+							ini, rsp, iniFar, rspFar = b, a, idA, idB
+						}
+						fired := false
+						var evErr error
+						fresh := state.NewEncryptionSession()
+						serve := func() error {
+							sr := rsp.Inst.StateV.GetSession(rspFar.IP)
+							if sr == nil {
+								return fmt.Errorf("no session yet")
 							}
-							si, sr := ini.Inst.StateV.GetSession(iniFar.IP), rsp.Inst.StateV.GetSession(rspFar.IP)
-							if si == nil || sr == nil {
-								evErr = fmt.Errorf("no session yet")
-								return [][]byte{msg}
-							}
-							fresh := state.NewEncryptionSession()
 							kx, kxt, err := fresh.InitKeyClientStart()
-							if err == nil {
-								var kx2 []byte
-								var kxt2 string
-								kx2, kxt2, err = sr.Encryption().InitKeyServer(kx, kxt)
-								if err == nil {
-									err = fresh.InitKeyClientComplete(kx2, kxt2)
-								}
-							}
 							if err != nil {
-								evErr = err
-								return [][]byte{msg}
+								return err
+							}
+							kx2, kxt2, err := sr.Encryption().InitKeyServer(kx, kxt)
+							if err != nil {
+								return err
+							}
+							if err := fresh.InitKeyClientComplete(kx2, kxt2); err != nil {
+								return err
 							}
 							fresh.InitCleanup()
+							return nil
+						}
+						install := func() error {
+							si := ini.Inst.StateV.GetSession(iniFar.IP)
+							if si == nil {
+								return fmt.Errorf("no session yet")
+							}
 							si.SetEncryptionSession(fresh)
+							return nil
 						}
-						return [][]byte{msg}
-					}
-					s := runHandshake(idA, idB, c.a, c.b, plan, a, b)
-					wit := map[string]any{"config": desc, "errA": fmt.Sprint(s.ra.Err), "errB": fmt.Sprint(s.rb.Err), "case_id": desc}
-					if !s.ok {
-						res.Count("key_setup_during_handshake_watchdog", 1)
-						s.close()
-						continue
-					}
-					if pa := append(a.PanicAlerts(), b.PanicAlerts()...); len(pa) > 0 {
-						res.Violate("setup-worker-panic:key-setup-during-handshake", desc+": "+pa[0], wit)
-						s.close()
-						return
-					}
-					switch {
-					case !fired || evErr != nil:
-						res.Count("key_setup_during_handshake_not_applicable", 1)
-					case s.ra.Link != nil && s.rb.Link != nil && s.ra.Err == nil && s.rb.Err == nil:
-						who := "the-accepting-router"
-						if initiatorIsA {
-							who = "the-dialling-router"
-						}
-						if !exchangeTrafficSig(res, s, r, 6, desc, fmt.Sprintf(":e2e-key-setup-initiated-by-%s-completes-before-handshake-message-%d-%s", who, idx, map[wire.Dir]string{wire.AtoB: "of-the-dialling-router", wire.BtoA: "of-the-accepting-router"}[dir])) {
-							s.close()
-							continue // the other positions are still judged
-						}
-						res.Count("key_setup_during_handshake_link_works", 1)
-					default:
-						for _, x := range []struct {
-							rt  *wire.Router
-							far *m.Address
-							err error
-						}{{a, idB, s.ra.Err}, {b, idA, s.rb.Err}} {
-							if x.err == nil {
+						if half == "response-installed" {
+							if err := serve(); err != nil {
+								res.Count("key_setup_during_handshake_not_applicable", 1)
 								continue
 							}
-							if reg, what := registered(x.rt, x.far); reg {
-								res.Violate("link-registered-by-failed-setup", fmt.Sprintf("%s: a router whose setup failed (%v) has something registered: %s", desc, x.err, what), wit)
-								s.close()
-								return
-							}
 						}
-						res.Count("key_setup_during_handshake_setup_refused", 1)
+						plan := func(d wire.Dir, i int, msg []byte) [][]byte {
+							if d == dir && i == idx && !fired {
+								fired = true
+								if half == "request-served" {
+									evErr = serve()
+								} else {
+									evErr = install()
+								}
+							}
+							return [][]byte{msg}
+						}
+						s := runHandshake(idA, idB, c.a, c.b, plan, a, b)
+						if half == "request-served" && fired && evErr == nil {
+							_ = install() // the response arrives after the handshake ended
+						}
+						wit := map[string]any{"config": desc, "errA": fmt.Sprint(s.ra.Err), "errB": fmt.Sprint(s.rb.Err), "case_id": desc}
+						if !s.ok {
+							res.Count("key_setup_during_handshake_watchdog", 1)
+							s.close()
+							continue
+						}
+						if pa := append(a.PanicAlerts(), b.PanicAlerts()...); len(pa) > 0 {
+							res.Violate("setup-worker-panic:key-setup-during-handshake", desc+": "+pa[0], wit)
+							s.close()
+							return
+						}
+						switch {
+						case !fired || evErr != nil:
+							res.Count("key_setup_during_handshake_not_applicable", 1)
+						case s.ra.Link != nil && s.rb.Link != nil && s.ra.Err == nil && s.rb.Err == nil:
+							// the router that acts in the half that falls into the handshake
+							who := "the-accepting-router"
+							if (half == "request-served") != initiatorIsA {
+								who = "the-dialling-router"
+							}
+							what := ":hello-request-served-in-place-by-"
+							if half == "response-installed" {
+								what = ":hello-response-installed-at-"
+							}
+							if !exchangeTrafficSig(res, s, r, 6, desc, fmt.Sprintf("%s%s-before-handshake-message-%d-%s", what, who, idx, map[wire.Dir]string{wire.AtoB: "of-the-dialling-router", wire.BtoA: "of-the-accepting-router"}[dir])) {
+								s.close()
+								continue // the other positions are still judged
+							}
+							res.Count("key_setup_during_handshake_link_works", 1)
+						default:
+							for _, x := range []struct {
+								rt  *wire.Router
+								far *m.Address
+								err error
+							}{{a, idB, s.ra.Err}, {b, idA, s.rb.Err}} {
+								if x.err == nil {
+									continue
+								}
+								if reg, what := registered(x.rt, x.far); reg {
+									res.Violate("link-registered-by-failed-setup", fmt.Sprintf("%s: a router whose setup failed (%v) has something registered: %s", desc, x.err, what), wit)
+									s.close()
+									return
+								}
+							}
+							res.Count("key_setup_during_handshake_setup_refused", 1)
+						}
+						res.Case("kx-during-handshake:"+desc, true)
+						s.close()
+						time.Sleep(3 * time.Millisecond)
 					}
-					res.Case("kx-during-handshake:"+desc, true)
-					s.close()
-					time.Sleep(3 * time.Millisecond)
 				}
 			}
 		}
